@@ -77,6 +77,21 @@ where
     let mut proofs: Vec<R1CSProof<SymA<C>>> = vec![];
     let mut ok = true;
     for (i, inst) in case.instances.iter().enumerate() {
+        if inst.kind == "same_proof_other_constant" && i > 0 {
+            // the SAME proof object as the previous member, presented for a statement whose first
+            // constant differs by a symbolic delta
+            let f = fork_for_verifier(&inst.shape, &shrs[i - 1]);
+            let mut dv = SymVals::<C::ScalarField>::new(seed ^ 0x5a5a);
+            {
+                let mut fb = f.borrow_mut();
+                fb.dev_draw = Some(("const".into(), 0));
+                fb.dev_delta = Some(dv.fresh("delta"));
+            }
+            let dup = proofs[i - 1].clone();
+            proofs.push(dup);
+            shrs.push(f);
+            continue;
+        }
         let shr = new_shared::<SymA<C>>(&inst.shape, &Default::default(), Box::new(SymVals::<C::ScalarField>::new(seed.wrapping_add(i as u64 * 101))));
         if inst.kind.starts_with("honest") {
             arena::set_ctx(&format!("prove{}", i));
@@ -135,7 +150,9 @@ where
         let mut insts = vec![];
         for (i, vt) in transcripts.iter_mut().enumerate() {
             let verifier = build_verifier(&case.instances[i].shape, &shrs[i], vt);
-            insts.push((verifier, &proofs[i]));
+            // "same_proof_other_constant": literally the same proof object (same address) as the member before
+            let pi = if case.instances[i].kind == "same_proof_other_constant" && i > 0 { i - 1 } else { i };
+            insts.push((verifier, &proofs[pi]));
         }
         batch_verify(&mut alpha_rng, insts, &pc, &bp)
     };
@@ -284,6 +301,7 @@ pub fn c07_cases(thorough: bool) -> Vec<BatchCase> {
         BatchCase { name: "honest_then_opaque".into(), instances: vec![h(&one), o(&two)] },
         BatchCase { name: "honest_then_identity_point_member".into(), instances: vec![h(&one), Inst { shape: two.clone(), kind: "honest_identity_t1".into() }] },
         BatchCase { name: "wrong_round_count_member_first".into(), instances: vec![Inst { shape: one.clone(), kind: "honest_extra_round".into() }, h(&two)] },
+        BatchCase { name: "same_proof_object_replayed_for_another_constant".into(), instances: vec![h(&one), Inst { shape: one.clone(), kind: "same_proof_other_constant".into() }] },
         BatchCase { name: "only_structurally_invalid_member".into(), instances: vec![Inst { shape: two.clone(), kind: "honest_identity_t1".into() }] },
         BatchCase { name: "opaque_then_honest_two_phase".into(), instances: vec![o(&twop), h(&one)] },
     ];
